@@ -25,6 +25,9 @@ type Edit struct {
 	At   int     `json:"at"`
 	U64  uint64  `json:"u64"`
 	B    pbt.Hex `json:"b"`
+	// F (kind "foreign"): not an edit at all - another exported method is called and its result
+	// written over by the caller (see foreign_test.go); the transaction does not change
+	F *Foreign `json:"f,omitempty"`
 }
 
 // EditCase is a history: hash, edit the same object in place, hash again, ...
@@ -67,6 +70,7 @@ func (e Edit) applyModel(m *ref.Tx) {
 			m.In[i].Unlock = append(append(pbt.Hex{}, m.In[i].Unlock...), e.B...)
 		}
 	case "elsewhere": // the caller works on another transaction it parsed; this one does not change
+	case "foreign": // some other exported method is called; this transaction does not change
 	}
 }
 
@@ -83,7 +87,9 @@ func checkEdits(ctx *pbt.Ctx, c EditCase) error {
 	tx, via := ref.ToLibVia(m)
 	ctx.Label("object=" + via)
 	var undo []*bscript.Script
+	var scribbled scribbler
 	defer func() {
+		scribbled.restore()
 		for _, s := range undo {
 			*s = (*s)[:0]
 		}
@@ -190,6 +196,13 @@ func checkEdits(ctx *pbt.Ctx, c EditCase) error {
 				}
 			}
 		}
+		if e.Kind == "foreign" && e.F != nil {
+			l, ferr := e.F.run(tx, &scribbled)
+			if ferr != nil {
+				return ferr
+			}
+			ctx.Label(l)
+		}
 		ctx.Label("edit=" + e.Kind)
 		if err := compare(i + 1); err != nil {
 			return err
@@ -201,15 +214,20 @@ func checkEdits(ctx *pbt.Ctx, c EditCase) error {
 
 func TestEdits(t *testing.T) {
 	pbt.Run(t, pbt.Sub[EditCase]{
-		Name: "edits", Quick: 12000, Thorough: 400000,
+		Name: "edits", Quick: 12000, Thorough: 400000, Precommit: true, // a library whose state a foreign call damaged may end the process (Tx.Clone calls log.Fatal)
 		Gen: func(t *rapid.T) EditCase {
 			o := gen.TxOpts{MinIn: 1, MaxIn: 4, MinOut: 0, MaxOut: 4, MaxScript: 60, ScriptEdges: []int{0, 1, 25}}
 			c := EditCase{Tx: gen.Tx(t, o)}
 			n := rapid.IntRange(1, 4).Draw(t, "n_edits")
 			for i := 0; i < n; i++ {
-				c.Edits = append(c.Edits, Edit{
-					Kind: rapid.SampledFrom([]string{"seq", "seq", "vout", "sats", "sats", "oscript", "prevsats", "prevscript", "version", "locktime", "dupin", "appendunlock", "elsewhere", "elsewhere"}).Draw(t, "kind"),
-					At:   rapid.IntRange(0, 3).Draw(t, "at"), U64: gen.U64(t, "val"), B: gen.BytesUpTo(t, 30, "bytes")})
+				e := Edit{
+					Kind: rapid.SampledFrom([]string{"seq", "seq", "vout", "sats", "sats", "oscript", "prevsats", "prevscript", "version", "locktime", "dupin", "appendunlock", "elsewhere", "elsewhere", "foreign", "foreign", "foreign", "foreign"}).Draw(t, "kind"),
+					At:   rapid.IntRange(0, 3).Draw(t, "at"), U64: gen.U64(t, "val"), B: gen.BytesUpTo(t, 30, "bytes")}
+				if e.Kind == "foreign" {
+					f := genForeign(t)
+					e.F = &f
+				}
+				c.Edits = append(c.Edits, e)
 			}
 			for i := 0; i <= n; i++ {
 				c.Types = append(c.Types, rapid.SampledFrom([]int{0x41, 0x41, 0x42, 0x43, 0xc1, 0xc2, 0xc3, 0x44, 0x5f}).Draw(t, "type"))
